@@ -53,6 +53,10 @@ type Folder struct {
 	Budget   int
 	Over     bool
 
+	// tuples holds, per evaluated call with several results, the agreed
+	// constant of each position (nil entries: unknown)
+	tuples map[*ssa.Call][]cval
+
 	startBlock, startPred *ssa.BasicBlock
 	preset                map[ssa.Value]cval
 }
@@ -197,6 +201,11 @@ func (f *Folder) eval(fn *ssa.Function, args []cval, depth int) []Outcome {
 				env[x] = f.call(env, x, depth)
 			case *ssa.Extract:
 				env[x] = unknownVal
+				if cl, ok := x.Tuple.(*ssa.Call); ok && f.tuples != nil {
+					if t, ok := f.tuples[cl]; ok && x.Index < len(t) {
+						env[x] = t[x.Index]
+					}
+				}
 				if a, ok := f.assume(x); ok {
 					env[x] = a
 				}
@@ -452,7 +461,12 @@ func (f *Folder) call(env fenv, x *ssa.Call, depth int) cval {
 	case "pkg/log", "pkg/metrics", "pkg/stderror":
 		return unknownVal
 	}
-	if sc.Signature.Results().Len() != 1 {
+	nres := sc.Signature.Results().Len()
+	if nres == 0 {
+		return unknownVal
+	}
+	if nres > 1 && len(sc.Blocks) > 12 {
+		// several results are folded for small helpers only (cost)
 		return unknownVal
 	}
 	var args []cval
@@ -460,6 +474,39 @@ func (f *Folder) call(env fenv, x *ssa.Call, depth int) cval {
 		args = append(args, f.val(env, a))
 	}
 	outs := f.eval(sc, args, depth+1)
+	if nres > 1 {
+		// several results: each position is known if all outcomes agree on it
+		agreed := make([]cval, nres)
+		set := make([]bool, nres)
+		okAll := len(outs) > 0
+		for _, o := range outs {
+			if !o.Returned || len(o.Results) != nres {
+				okAll = false
+				break
+			}
+			for i, r := range o.Results {
+				if !set[i] {
+					agreed[i], set[i] = r, true
+					continue
+				}
+				a := agreed[i]
+				switch {
+				case a.known && r.known && constant.Compare(a.v, token.EQL, r.v):
+				case a.isNil && r.isNil:
+				case a.nonNil && r.nonNil && !a.known && !r.known:
+				default:
+					agreed[i] = unknownVal
+				}
+			}
+		}
+		if okAll {
+			if f.tuples == nil {
+				f.tuples = map[*ssa.Call][]cval{}
+			}
+			f.tuples[x] = agreed
+		}
+		return unknownVal
+	}
 	// all outcomes must agree on a known constant
 	var res *cval
 	for _, o := range outs {
